@@ -526,6 +526,8 @@ def check_report(facts, chk):
 
 
 def run(facts, chk, tier, only=None):
+    from . import nk_e2e
+    chk.guard('C01.e2e', 'C01.e2e:run', lambda: nk_e2e.check_nk_e2e(facts, chk, 'C01.e2e', tier))
     from . import skiter
     # the iterator itself, functionally, on a bounded family of sequences (complements the guard-tightness rule)
     chk.guard('C01.func', 'C01.func:iterator', lambda: skiter.check_contigs(facts, chk, 'C01.func', tier))
